@@ -51,8 +51,103 @@ pub proof fn lemma_allows_grow_last(a: Seq<Span>, b: Seq<Span>, s: Span)
 }
 '''
 
+MERGE_SPEC = '''
+// ---- trusted std: total pure bool functions (their value plays no role in the proved clauses) ----
+pub assume_specification<'a, T, P: FnMut(&'a T) -> bool> [<core::slice::Iter<'a, T> as Iterator>::all] (it: &mut core::slice::Iter<'a, T>, pred: P) -> (r: bool)
+    where core::slice::Iter<'a, T>: Sized;
+
+// every allowed span ends inside the text
+pub open spec fn mask_in(a: Seq<Span>, n: int) -> bool { forall|i: int| 0 <= i < a.len() ==> (#[trigger] a[i]).end <= n }
+// the characters allowed by the first f spans
+pub open spec fn mask_allows_upto(a: Seq<Span>, f: int, c: int) -> bool {
+    exists|i: int| 0 <= i < f && i < a.len() && (#[trigger] a[i]).start <= c < a[i].end
+}
+
+// one step of the pass: the spans i .. nxt-1 (one span, or two merged ones) are appended as the single span s
+pub proof fn lemma_merge_step(allowed: Seq<Span>, a0: Seq<Span>, i: int, nxt: int, s: Span)
+    requires mask_wf(allowed), mask_wf(a0), 0 <= i < allowed.len(), nxt == i + 1 || (nxt == i + 2 && i + 1 < allowed.len()),
+             s.start == allowed[i].start, s.end == allowed[nxt - 1].end,
+             forall|k: int, m: int| 0 <= k < a0.len() && i <= m < allowed.len() ==> (#[trigger] a0[k]).end <= (#[trigger] allowed[m]).start,
+             forall|c: int| mask_allows_upto(allowed, i, c) ==> mask_allows(a0, c),
+    ensures mask_wf(a0.push(s)),
+            forall|k: int, m: int| 0 <= k < a0.push(s).len() && nxt <= m < allowed.len() ==> (#[trigger] a0.push(s)[k]).end <= (#[trigger] allowed[m]).start,
+            forall|c: int| mask_allows_upto(allowed, nxt, c) ==> mask_allows(a0.push(s), c),
+{
+    let r = a0.push(s);
+    assert(allowed[i].start <= allowed[i].end);
+    if nxt == i + 2 { assert(allowed[i].end <= allowed[i + 1].start); assert(allowed[i + 1].start <= allowed[i + 1].end); }
+    assert(s.start <= s.end);
+    assert forall|x: int| 0 <= x < r.len() implies (#[trigger] r[x]).start <= r[x].end by {
+        if x < a0.len() { assert(r[x] == a0[x]); }
+    }
+    assert forall|x: int, y: int| 0 <= x < y < r.len() implies (#[trigger] r[x]).end <= (#[trigger] r[y]).start by {
+        assert(r[x] == a0[x]);
+        if y < a0.len() { assert(r[y] == a0[y]); } else { assert(a0[x].end <= allowed[i].start); }
+    }
+    assert forall|k: int, m: int| 0 <= k < r.len() && nxt <= m < allowed.len() implies (#[trigger] r[k]).end <= (#[trigger] allowed[m]).start by {
+        if k < a0.len() { assert(r[k] == a0[k]); } else { assert(allowed[nxt - 1].end <= allowed[m].start); }
+    }
+    lemma_allows_push(a0, s);
+    assert forall|c: int| mask_allows_upto(allowed, nxt, c) implies mask_allows(r, c) by {
+        let k = choose|k: int| 0 <= k < nxt && k < allowed.len() && (#[trigger] allowed[k]).start <= c < allowed[k].end;
+        if k < i {
+            assert(mask_allows_upto(allowed, i, c));
+            assert(mask_allows(a0, c));
+            let j = choose|j: int| 0 <= j < a0.len() && (#[trigger] a0[j]).start <= c < a0[j].end;
+            assert(0 <= j < a0.len());
+            assert(a0.push(s)[j] == a0[j]);
+            assert(r[j] == a0[j]);
+        } else {
+            assert(s.start <= c < s.end);
+            assert(r[a0.len() as int] == s);
+        }
+    }
+}
+'''
+
+# one pass of merge_whitespace_sep: `after` stays well formed, ends before everything not yet visited, and allows
+# every character the visited spans allowed; the recursion terminates because a pass that changes the number of
+# spans strictly decreases it
+MERGE = dict(
+    props=['C01', 'C02', 'C04'],
+    requires=['mask_wf(old(self).allowed@)', 'mask_in(old(self).allowed@, source@.len() as int)'],
+    ensures=['mask_wf(final(self).allowed@)', 'mask_in(final(self).allowed@, source@.len() as int)',
+             'final(self).allowed@.len() <= old(self).allowed@.len()',
+             # nothing that was allowed is lost
+             'forall|c: int| mask_allows(old(self).allowed@, c) ==> mask_allows(final(self).allowed@, c)'],
+    decreases='old(self).allowed@.len()',
+    loops={1: dict(invariant=[
+        'self.allowed@ == old(self).allowed@', 'mask_wf(self.allowed@)', 'mask_in(self.allowed@, source@.len() as int)',
+        'iter.end == self.allowed@.len()', 'iter.start <= iter.end',
+        'mask_wf(after@)', 'mask_in(after@, source@.len() as int)', 'after@.len() <= iter.start',
+        'forall|k: int, m: int| 0 <= k < after@.len() && iter.start <= m < self.allowed@.len() ==> (#[trigger] after@[k]).end <= (#[trigger] self.allowed@[m]).start',
+        'forall|c: int| mask_allows_upto(self.allowed@, iter.start as int, c) ==> mask_allows(after@, c)',
+    ], ensures=['iter.start >= iter.end'], decreases='iter.end - iter.start')},
+    proofs=[
+        dict(before='iter.next();', kind='ghost', text='let ghost a0 = after@;'),
+        dict(before='continue;', text="""
+            assert(self.allowed@[i as int] == a && self.allowed@[i + 1] == *b);
+            lemma_merge_step(self.allowed@, a0, i as int, i + 2, Span { start: a.start, end: b.end });
+            assert(after@ == a0.push(Span { start: a.start, end: b.end }));
+        """),
+        dict(before='after.push(a);', kind='ghost', text='let ghost a1 = after@;'),
+        dict(after='after.push(a);', text="""
+            assert(self.allowed@[i as int] == a);
+            lemma_merge_step(self.allowed@, a1, i as int, i + 1, a);
+            assert(after@ == a1.push(a));
+        """),
+        dict(at='after_loop', loop=1, text="""
+            assert forall|c: int| mask_allows(old(self).allowed@, c) implies mask_allows(after@, c) by {
+                let k = choose|k: int| 0 <= k < self.allowed@.len() && (#[trigger] self.allowed@[k]).start <= c < self.allowed@[k].end;
+                assert(iter.start == self.allowed@.len());
+                assert(mask_allows_upto(self.allowed@, iter.start as int, c));
+            }
+        """),
+    ],
+)
+
 PUSH = dict(
-    props=['C01', 'C02'],
+    props=['C01', 'C02', 'C04'],
     requires=['mask_wf(old(self).allowed@)', 'allowed.start <= allowed.end',
               'old(self).allowed@.len() > 0 ==> allowed.start >= old(self).allowed@.last().end'],
     ensures=['mask_wf(final(self).allowed@)',
@@ -66,10 +161,12 @@ PUSH = dict(
 def build(repo):
     U = Unit(NAME, repo)
     U.header = common.HEADER
-    common.add_span(U, [], props=('C01',))
+    common.add_span(U, ['new', 'len', 'is_empty', 'get_content', 'try_get_content'], props=('C01',))
     U.item(M, 'struct Mask', derive=())
     U.raw(SPEC, name='spec:mask')
+    U.raw(MERGE_SPEC, name='spec:mask-merge')
     U.impl(M, 'impl Mask', {'new_blank': dict(result='r', props=['C01', 'C02'], ensures=['r.allowed@.len() == 0', 'mask_wf(r.allowed@)']),
-                            'push_allowed': PUSH})
+                            'push_allowed': PUSH,
+                            'merge_whitespace_sep': MERGE})
     U.raw(common.FOOTER)
     return U
